@@ -38,3 +38,7 @@ def run(R):
                               "distinct by MD5 of the canonical case")
         R.add_cases(res["cases"], len(res["nontrivial"]), res["samples"])
     return R.finish()
+
+
+def replay(R, path):
+    return _face().replay_generic(R, path, "C10")
